@@ -11,7 +11,7 @@ import (
 
 func init() {
 	registerProperty(&Property{
-		ID: "C15",
+		ID:          "C15",
 		Explanation: "Decides structural necessary conditions of store atomicity and exact resumption: (R1) no error of a storage operation (Write, Flush, Commit, Seek, Stat, Create, Open, Read, close) is dropped or overwritten on any path in exec/store.go and at the store call sites of the worker; (R2) a buffered writer is flushed after its last write on every path to Commit; (R3) fileWriter.Commit writes the record-count trailer and only then closes; (R4) the trailer size is one value at its four sites (Commit buffer, Open limit, Stat seek, Stat buffer) and all use one byte order; (R5) the retrying reader reopens at a field that is advanced only by the count of bytes it just returned, closes and forgets the failed reader before waiting, and keeps the wait error; (R6) the memory store refuses a second commit, slices behind the length check and touches its maps only under its mutex. Not decided: rename-on-close semantics of grailbio/base file.File, the exact bytes, behaviour under real I/O faults.",
 		Rules: []Rule{
 			{ID: "C15-R1", Doc: "storage errors are never dropped", Run: c15r1},
